@@ -159,15 +159,34 @@ class Axioms:
                 continue
             self.seen[k] = t
             if z3.is_quantifier(t):
-                continue    # terms under a binder mention bound variables: not instantiated
+                todo.append(t.body())   # ground subterms under the binder are instantiated too
+                continue
+            if z3.is_var(t):
+                continue
             if z3.is_app(t):
-                self.inst(t)
+                if not self.has_var(t):
+                    self.inst(t)
                 todo.extend(t.children())
                 if self.out:
                     result.extend(self.out)
                     todo.extend(self.out)
                     self.out = []
         return result
+
+    def has_var(self, t):
+        """Does t mention a bound variable?  (memoised, linear)"""
+        memo = self.__dict__.setdefault("_hv", {})
+        k = t.get_id()
+        if k in memo:
+            return memo[k][0]
+        if z3.is_var(t):
+            r = True
+        elif z3.is_quantifier(t):
+            r = False     # closed from the outside; its body is handled separately
+        else:
+            r = any(self.has_var(c) for c in t.children())
+        memo[k] = (r, t)
+        return r
 
     def inst(self, t):
         d = t.decl()
